@@ -25,6 +25,9 @@ func genEditOps(r *rand.Rand, walks bool) []string {
 			ops = append(ops, fmt.Sprintf("M:%d", r.Intn(5)-2))
 		case c == 4 && !walks:
 			ops = append(ops, "R")
+		case walks && c >= 5 && r.Intn(4) == 0:
+			// history-search-* and the substring searches: they match against the line being typed
+			ops = append(ops, fmt.Sprintf("S:%d:%d", r.Intn(2), r.Intn(2)))
 		case walks && c >= 5 && r.Intn(5) == 0:
 			// the line is accepted as it is (the typed one or a history line) and the next call starts
 			ops = append(ops, "A")
@@ -85,6 +88,9 @@ func runEditOps(src []string, ops []string) string {
 				fmt.Sscanf(f[1], "%d", &d)
 				h.Save()
 				h.Walk(d)
+			case "S":
+				h.Save()
+				h.InsertMatch(nil, nil, true, f[1] == "1", f[2] == "1")
 			case "A":
 				// accept-line, the Save of Shell.run, then Shell.init of the next call
 				h.Accept(false, false, nil)
